@@ -157,7 +157,8 @@ def build_harness(variant, hooks=True):
 
 def run_shard(path):
     t = time.time()
-    rc, out = sh(["coqc", "-Q", ".", "SDS", path], cwd=COQ, timeout=3000)
+    # long case lists need a deep stack while Coq elaborates them
+    rc, out = sh("ulimit -s unlimited 2>/dev/null || ulimit -s 4000000 2>/dev/null; exec coqc -Q . SDS '%s'" % path, cwd=COQ, timeout=3000)
     flat = re.sub(r"\s+", " ", out)
     m = re.search(r"= (\[.*?\]) : list \(N \* N\)", flat)
     fails = None
